@@ -126,3 +126,7 @@ impl RunningNode {
         &self.rewards_address
     }
 }
+
+/// Verification hooks (compiled only with `--cfg maidsafe_safe_network_verif`).
+#[cfg(maidsafe_safe_network_verif)]
+pub use self::node::verif as verif_hooks;
